@@ -29,7 +29,7 @@ fn stable_dump(c: &Client) -> Vec<String> {
 pub fn explore_pairs(w: &World, member: &str, regime: Regime, max_pairs: usize, rep: &mut Report) {
     let pool_ids = w.pool_ids();
     let wids = w.welcome_ids();
-    let opts = ExploreOpts { regime, max_states: usize::MAX, with_restart: true, with_local_ops: true, keep_key_json: false, pool_filter: None, with_welcomes: false, welcome_consent: 0, prejoin: false };
+    let opts = ExploreOpts { regime, max_states: usize::MAX, with_restart: true, with_local_ops: true, keep_key_json: false, pool_filter: None, with_welcomes: false, welcome_consent: 0, prejoin: false, rejoin: false };
     let mut recs: Vec<PairRec> = vec![PairRec { parent: None, restarts_since_sync: false, rand_diverged: false }];
     let mut live: HashMap<usize, (Client, Client, StateRec)> = HashMap::new();
     let mut index: HashMap<(u64, u64), usize> = HashMap::new();
